@@ -6,6 +6,7 @@ from typing import List
 
 from ..cfg import CFG
 from ..core import AnalysisError, FunctionInfo, Project, dotted, is_const, kwarg, norm, param_names, walk_no_nested
+from .. import sym
 from ..util import assignments, count_negations, header_calls, returns_of, stmt_text
 from . import c14, c19
 from .shared import MAT
@@ -203,22 +204,39 @@ def r5(ctx, _shared=True):
     P = ctx.project
     f = P.func(c14.c01.OPS).locals_named("insert_unused_terms")
     ctx.look(3)
-    asg = [(n, v) for n, v, _ in assignments(f.node) if n == "available_variables"]
-    ok = len(asg) == 2 and all(isinstance(v, ast.Call) and dotted(v.func) == "OrderedSet" for _, v in asg)
-    srcs = sorted(norm(v.args[0]) for _, v in asg if isinstance(v, ast.Call) and v.args)
-    ctx.check(ok and srcs == ["context.named_layers['data']", "context['__formulaic_variables_available__']"], "C17.R5",
+    cp = param_names(f.node)[0]
+    try:
+        outs = sym.outcomes(f.node)
+    except sym.Unmodelled as e:
+        raise AnalysisError(f"C17.R5: insert_unused_terms cannot be summarised: {e}")
+    EXPL, DATA = f"'__formulaic_variables_available__' in {cp}", f"'data' in {cp}.named_layers"
+    USED = f"set({cp}['__formulaic_variables_used_lhs__'])"
+    cases = [("explicit list", {EXPL: True}, f"OrderedSet({cp}['__formulaic_variables_available__'])"),
+             ("data layer", {EXPL: False, f"isinstance({cp}, LayeredMapping)": True, DATA: True}, f"OrderedSet({cp}.named_layers['data'])")]
+    ok_av = ok_sub = ok_terms = True
+    seen = []
+    for what, facts, avail in cases:
+        res = sym.eval_under(outs, facts, kinds=("return",))
+        if len(res) != 1:
+            ok_av = False
+            continue
+        b_ = sym.pm("OrderedSet((Term([Factor(VAR_v, eval_method='lookup')]) for VAR_v in ANY_src))", res[0][1])
+        if b_ is None:
+            ok_terms = False
+            continue
+        seen.append(b_["ANY_src"])
+        if b_["ANY_src"] != f"{avail} - {USED}":
+            if not b_["ANY_src"].startswith(avail):
+                ok_av = False
+            else:
+                ok_sub = False
+    ctx.check(ok_av, "C17.R5",
               "the available variables stay in an ordered container (explicit list, else the data layer's keys in data order)", f.where,
-              ctx.construct(f, text="available ordered"), f"available_variables is built from {srcs} via {[norm(v.func) for _, v in asg if isinstance(v, ast.Call)]}")
-    un = [v for n, v, _ in assignments(f.node) if n == "unused_variables"]
-    ok = len(un) == 1 and norm(un[0]) == "available_variables - used_variables"
-    ctx.check(ok, "C17.R5", "the left-hand-side variables are only subtracted from the ordered available variables", f.where, ctx.construct(f, text="subtract used"),
-              f"unused_variables = `{norm(un[0]) if un else None}`")
-    r = returns_of(f.node)
-    ok = bool(r) and norm(r[-1].value) == "OrderedSet((Term([Factor(variable, eval_method='lookup')]) for variable in unused_variables))"
-    ctx.check(ok, "C17.R5", "each unused variable becomes one lookup term, in order", f.where, ctx.construct(f, text="terms"), f"returns `{norm(r[-1].value)[:120] if r else None}`")
-    used = [v for n, v, _ in assignments(f.node) if n == "used_variables"]
-    ok = len(used) == 1 and norm(used[0]) == "set(context['__formulaic_variables_used_lhs__'])"
-    ctx.check(ok, "C17.R5", "used variables are exactly those recorded for the left-hand side", f.where, ctx.construct(f, text="used"), f"used_variables = `{norm(used[0]) if used else None}`")
+              ctx.construct(f, text="available ordered"), f"the terms are generated from {seen}")
+    ctx.check(ok_sub and ok_av, "C17.R5", "the left-hand-side variables are only subtracted from the ordered available variables", f.where, ctx.construct(f, text="subtract used"),
+              f"expected <ordered available variables> - {USED}; found {seen}")
+    ctx.check(ok_terms, "C17.R5", "each unused variable becomes one lookup term, in order", f.where, ctx.construct(f, text="terms"), f"returns {[repr(o)[:120] for o in outs if o.kind == 'return'][:2]}")
+    ctx.check(ok_sub and ok_av, "C17.R5", "used variables are exactly those recorded for the left-hand side", f.where, ctx.construct(f, text="used"), f"found {seen}")
     gt = P.func(c14.c01.DFP + ".get_tokens_from_formula")
     w = [s for s in walk_no_nested(gt.node) if isinstance(s, ast.Assign) and norm(s.targets[0]) == "context['__formulaic_variables_used_lhs__']"]
     ok = len(w) == 1 and norm(w[0].value) == "[variable for token in tokens[:rhs_index] for variable in token.required_variables]"
